@@ -45,7 +45,7 @@ fn record(out: &mut Out, coll: &str, rng: &mut Rng, cfg: &RandCfg) -> (Vec<(Op, 
 
 pub fn inject_suite(out: &mut Out, coll: &str, rng: &mut Rng, n_hist: usize, len: usize, universe: i64, max_points_per_op: usize) -> (usize, usize) {
     let suite = format!("inject-{}", coll);
-    let modelled = matches!(coll, "map" | "set" | "key");
+    let modelled = matches!(coll, "map" | "set" | "key" | "mlist" | "slist" | "klist");
     let expiring = coll == "key" || coll == "klist";
     let mut points = 0usize;
     let mut ops_with_cb = 0usize;
@@ -182,6 +182,8 @@ pub fn inject_seg(out: &mut Out, rng: &mut Rng, n_hist: usize, len: usize) -> us
                 if res.is_ok() { continue; }
                 // survivor: whole-domain query at the same time must still be exact
                 let tq = ops[i].a[2];
+                // the interrupted query already purged copies expired at its time
+                r.last_q = Some(r.last_q.map_or(tq, |x| x.max(tq)));
                 r.step(&Op::new("query", &[lo, hi, tq, -1]));
                 r.end();
             }
